@@ -16,7 +16,7 @@ print(' '.join(m.get('checks') or [m['property']]))")
   for id in $ids; do
     out=$(MUT_LINES=3 tools/mutant.sh "$id" "$d/patch.diff" 2>&1 | tail -1)
     echo "$name $id: $out"
-    case "$out" in *CAUGHT*) ;; *) miss=$((miss+1)) ;; esac
+    exp=$(python3 -c "import json;print(json.load(open('$d/meta.json')).get('verdict','caught'))"); case "$out" in *CAUGHT*) ;; *) if [ "$exp" = missed ]; then echo "  (recorded as missed)"; else miss=$((miss+1)); fi ;; esac
   done
 done
 echo "missed=$miss"
